@@ -176,19 +176,6 @@ func walkVM(v *vm.VM) walkRes {
 	return w.res
 }
 
-// walkGhost continues the walk of the last walkVM over `ghost` (the items that were on evaluation
-// stacks dropped by exception unwinding) as additional roots and returns the total: what a walk
-// from the real roots AND from the ghost list finds (theorem refs_exact_unwind: without cycles this
-// is exactly the VM's counter). Must be called right after walkVM on the same state.
-func walkGhost(ghost []stackitem.Item) int {
-	w := theWalker
-	w.res.reach += len(ghost)
-	for _, it := range ghost {
-		w.visit(it)
-	}
-	return w.res.reach
-}
-
 // reachesItem tells whether `target` (a compound) is reachable from `from` (used by the generator
 // to avoid / to build cycles on purpose).
 func reachesItem(from, target stackitem.Item) bool {
